@@ -99,6 +99,7 @@ func propC12(w *World, r *Report) {
 			r.Pass("Y3", "sink="+rn+"/bookkeeping", "-", "inferred invariant at all "+fmt.Sprint(len(run.Reach))+" quiescent states: "+inv[role].pred+" <=> "+rn+" sink open")
 		}
 	}
+	checkWrappedSinkProtocol(w, r, "Y1", "Y3")
 	r.Extra["reachable_states"] = len(run.Reach)
 	r.Extra["interpreter_steps"] = run.Steps
 	r.Extra["quiescent_states"] = qs
